@@ -158,3 +158,30 @@ func vSide(server bool) ws.State {
 	}
 	return ws.StateClientSide
 }
+
+// vDst records every Write call; optionally fails at call index failAt.
+type vDst struct {
+	calls  [][]byte
+	all    []byte
+	failAt int
+	failed bool
+}
+
+type vErr struct{ s string }
+
+func (e *vErr) Error() string { return e.s }
+
+var vErrDst = &vErr{"harness: destination write failed"}
+
+func (d *vDst) Write(p []byte) (int, error) {
+	if d.failAt >= 0 && len(d.calls) >= d.failAt {
+		d.failed = true
+		d.calls = append(d.calls, nil)
+		return 0, vErrDst
+	}
+	c := append([]byte{}, p...)
+	d.calls = append(d.calls, c)
+	d.all = append(d.all, c...)
+	return len(p), nil
+}
+
